@@ -706,10 +706,14 @@ pub fn emit_file(r: &mut Rng, els: &[El]) -> String {
                 let phys = if r.chance(1, 3) { format!("<{ho}PHYSICAL-TYPE {ho}BASE-DATA-TYPE=\"{}\"/>", r.pick(BASE_TYPES)) } else { String::new() };
                 let (phys_before, phys_after) = if r.chance(1, 2) { (phys.clone(), String::new()) } else { (String::new(), phys.clone()) };
                 let noise = name_noise(r, ho).concat();
+                // BIT-LENGTH, where present, repeats the width the base data type already states (8 for the
+                // types without a width in their name), so that it cannot matter whether a loader looks at it
+                let digits: String = b.chars().filter(|c| c.is_ascii_digit()).collect();
+                let bl: usize = digits.parse().unwrap_or(8);
                 x += &if r.chance(1, 2) {
                     format!("<{fx}CODING ID=\"{}\"><{ho}SHORT-NAME>{}</{ho}SHORT-NAME>{noise}{phys_before}<{ho}CODED-TYPE {ho}BASE-DATA-TYPE=\"{}\" CATEGORY=\"STANDARD-LENGTH-TYPE\"/>{phys_after}</{fx}CODING>{nl}", id, id, b)
                 } else {
-                    format!("<{fx}CODING ID=\"{}\">{phys_before}<{ho}CODED-TYPE CATEGORY=\"X\" BASE-DATA-TYPE=\"{}\"><{ho}BIT-LENGTH>8</{ho}BIT-LENGTH></{ho}CODED-TYPE>{phys_after}{noise}</{fx}CODING>{nl}", id, b)
+                    format!("<{fx}CODING ID=\"{}\">{phys_before}<{ho}CODED-TYPE CATEGORY=\"X\" BASE-DATA-TYPE=\"{}\"><{ho}BIT-LENGTH>{bl}</{ho}BIT-LENGTH></{ho}CODED-TYPE>{phys_after}{noise}</{fx}CODING>{nl}", id, b)
                 };
             }
         }
